@@ -307,32 +307,43 @@ structure FlState (R : Type) where
   angleRepeatCount : R
   broke : Bool
 
-/-- one iteration `i` of `for i in 0..min(curr.idx, 10)` -/
+/-- `if let Some((a, b)) = curr_obj.angle.zip(osu_curr.angle) { if (a - b).abs() < 0.02 { count += … } }` -/
+def flAngleRepeatCount (count : R) (i : Nat) (a b : Option R) : R :=
+  match a, b with
+  | some a, some b => if lt (abs (a - b)) 0.02 then count + fmax (1.0 - 0.1 * ofNat i) 0.0 else count
+  | _, _ => count
+
+/-- `osu_prev_obj.map_or(0.0, |obj| obj.travel_dist)` -/
+def travelDistOf (o : Option (DiffObj R)) : R :=
+  match o with
+  | some o => o.travelDist
+  | none => 0.0
+
+/-- the body of one iteration once `curr.previous(i)` returned `curr_obj` -/
+def flStepWith (curr : DiffObj R) (hidden : Bool) (scalingFactor timePreempt timeFadeIn : R)
+    (st : FlState R) (i : Nat) (currObj : DiffObj R) : FlState R :=
+  let cumulativeStrainTime := st.cumulativeStrainTime + st.lastObj.strainTime
+  if !currObj.base.isSpinner then
+    let jumpDist := (curr.base.stackedPos.sub currObj.base.stackedEndPos).length
+    let smallDistNerf := if i = 0 then fmin (jumpDist / 75.0) 1.0 else st.smallDistNerf
+    let stackNerf := fmin ((currObj.lazyJumpDist / scalingFactor) / 25.0) 1.0
+    let opacityBonus :=
+      1.0 + 0.4 * (1.0 - opacityAt curr currObj.base.startTime hidden timePreempt timeFadeIn)
+    let result := st.result + stackNerf * opacityBonus * scalingFactor * jumpDist / cumulativeStrainTime
+    let angleRepeatCount := flAngleRepeatCount st.angleRepeatCount i currObj.angle curr.angle
+    { smallDistNerf := smallDistNerf, cumulativeStrainTime := cumulativeStrainTime, result := result,
+      lastObj := currObj, angleRepeatCount := angleRepeatCount, broke := false }
+  else
+    { st with cumulativeStrainTime := cumulativeStrainTime, lastObj := currObj }
+
+/-- one iteration `i` of `for i in 0..min(curr.idx, 10)` (`let Some(curr_obj) = … else { break }`) -/
 def flStep (objs : List (DiffObj R)) (curr : DiffObj R) (hidden : Bool) (scalingFactor timePreempt timeFadeIn : R)
     (st : FlState R) (i : Nat) : FlState R :=
   if st.broke then st
   else
     match previous objs curr i with
     | none => { st with broke := true }
-    | some currObj =>
-      let cumulativeStrainTime := st.cumulativeStrainTime + st.lastObj.strainTime
-      if !currObj.base.isSpinner then
-        let jumpDist := (curr.base.stackedPos.sub currObj.base.stackedEndPos).length
-        let smallDistNerf := if i = 0 then fmin (jumpDist / 75.0) 1.0 else st.smallDistNerf
-        let stackNerf := fmin ((currObj.lazyJumpDist / scalingFactor) / 25.0) 1.0
-        let opacityBonus :=
-          1.0 + 0.4 * (1.0 - opacityAt curr currObj.base.startTime hidden timePreempt timeFadeIn)
-        let result := st.result + stackNerf * opacityBonus * scalingFactor * jumpDist / cumulativeStrainTime
-        let angleRepeatCount :=
-          match currObj.angle, curr.angle with
-          | some a, some b =>
-            if lt (abs (a - b)) 0.02 then st.angleRepeatCount + fmax (1.0 - 0.1 * ofNat i) 0.0
-            else st.angleRepeatCount
-          | _, _ => st.angleRepeatCount
-        { smallDistNerf := smallDistNerf, cumulativeStrainTime := cumulativeStrainTime, result := result,
-          lastObj := currObj, angleRepeatCount := angleRepeatCount, broke := false }
-      else
-        { st with cumulativeStrainTime := cumulativeStrainTime, lastObj := currObj }
+    | some currObj => flStepWith curr hidden scalingFactor timePreempt timeFadeIn st i currObj
 
 /-- the slider bonus of the flashlight evaluator -/
 def flSliderBonus (curr : DiffObj R) (scalingFactor : R) : R :=
@@ -360,18 +371,21 @@ def flashlightEvaluate (objs : List (DiffObj R)) (curr : DiffObj R) (hidden : Bo
 
 /-! ### speed -/
 
+/-- `get_doubletapness` once `next` is known to exist -/
+def doubletapnessWith (o nxt : DiffObj R) (hitWindow : R) : R :=
+  let hitWindow : R := if o.base.isSpinner then 0.0 else hitWindow
+  let currDeltaTime := fmax o.deltaTime 1.0
+  let nextDeltaTime := fmax nxt.deltaTime 1.0
+  let deltaDiff := abs (nextDeltaTime - currDeltaTime)
+  let speedRatio := currDeltaTime / fmax currDeltaTime deltaDiff
+  let windowRatio := powf (fmin (currDeltaTime / hitWindow) 1.0) 2.0
+  1.0 - powf speedRatio (1.0 - windowRatio)
+
 /-- `get_doubletapness(next, hit_window)` -/
 def getDoubletapness (o : DiffObj R) (nxt : Option (DiffObj R)) (hitWindow : R) : R :=
   match nxt with
   | none => 0.0
-  | some nxt =>
-    let hitWindow : R := if o.base.isSpinner then 0.0 else hitWindow
-    let currDeltaTime := fmax o.deltaTime 1.0
-    let nextDeltaTime := fmax nxt.deltaTime 1.0
-    let deltaDiff := abs (nextDeltaTime - currDeltaTime)
-    let speedRatio := currDeltaTime / fmax currDeltaTime deltaDiff
-    let windowRatio := powf (fmin (currDeltaTime / hitWindow) 1.0) 2.0
-    1.0 - powf speedRatio (1.0 - windowRatio)
+  | some nxt => doubletapnessWith o nxt hitWindow
 
 /-- `SpeedEvaluator::evaluate_diff_of` -/
 def speedEvaluate (objs : List (DiffObj R)) (curr : DiffObj R) (hitWindow : R) (autopilot : Bool) : R :=
@@ -387,7 +401,7 @@ def speedEvaluate (objs : List (DiffObj R)) (curr : DiffObj R) (hitWindow : R) (
         let base := (60000.0 / ofNat 4 / 200.0 - strainTime) / 40.0
         0.75 * powf base 2.0
       else 0.0
-    let travelDist : R := match osuPrevObj with | some o => o.travelDist | none => 0.0
+    let travelDist : R := travelDistOf osuPrevObj
     let dist := travelDist + curr.minJumpDist
     let dist := fmin (100.0 * 1.25) dist
     let distBonus := powf (dist / (100.0 * 1.25)) 3.95 * 0.9
